@@ -360,7 +360,7 @@ def body(case, ctx):
 
 
 def shards(tier, seed):
-    n = 60 if tier == 'quick' else 3000
+    n = 60 if tier == 'quick' else 2000
     return [{'n': n} for _ in range(16)]
 
 
